@@ -199,6 +199,39 @@ def run():
     must(ws(r"x = zn\.mul\(x, gaps\[gap / 2 - 1\]\); product = zn\.mul\(&product, &zn\.sub\(&x, &one\)\); "
             r"products\.push\(product\); p_prev = p; if p > b2 as u32 \{ break; \}"), b_pm1,
          "pm1 walk: product update before the `p > b2` test")
+    # --- y-normalisation (both ECM implementations): forward pass from steps[0].2, backward pass from steps[l-1].2
+    must(ws(r"let l = steps\.len\(\); let mut u = steps\[0\]\.2; for i in 1\.\.l \{ steps\[i\]\.1 = zn\.mul\(&steps\[i\]\.1, &u\); "
+            r"u = zn\.mul\(&u, &steps\[i\]\.2\); \} u = steps\[l - 1\]\.2; for i in 2\.\.=l \{ "
+            r"steps\[l - i\]\.1 = zn\.mul\(&steps\[l - i\]\.1, &u\); u = zn\.mul\(&u, &steps\[l - i\]\.2\); \}"), b_ecm,
+         "ecm::ecm_curve: y-normalisation")
+    must(ws(r"let l = steps\.len\(\); let mut u = steps\[0\]\.2; for i in 1\.\.l \{ steps\[i\]\.1 = mul\(steps\[i\]\.1, u\); "
+            r"u = mul\(u, steps\[i\]\.2\); \} u = steps\[l - 1\]\.2; for i in 2\.\.=l \{ "
+            r"steps\[l - i\]\.1 = mul\(steps\[l - i\]\.1, u\); u = mul\(u, steps\[l - i\]\.2\); \}"), b_e128,
+         "ecm128::ecm_curve: y-normalisation")
+    # --- PM1Base::factor: constants of the two stages
+    b_pb = fn_body(pm1, r"pub fn factor\(&self, n: u64, budget: usize\)", "PM1Base::factor")
+    m = must(ws(r"let fmax = std::cmp::min\(self\.factors\.len\(\), budget \* self\.factors\.len\(\) / (\d+)\);"), b_pb,
+             "PM1Base::factor: fmax")
+    pb_full = int(m.group(1))
+    m = must(ws(r"if budget < (\d+) \{ return None; \} let pmax = std::cmp::min\(self\.larges\.len\(\), budget - (\d+)\);"), b_pb,
+             "PM1Base::factor: stage-2 budget")
+    pb_min, pb_off = int(m.group(1)), int(m.group(2))
+    m = must(ws(r"let mut jumps = \[0u64; (\d+)\]; let mut j = xr2; for k in 1\.\.=jumps\.len\(\) \{ jumps\[k - 1\] = j; "
+                r"j = mg_mul\(n, ninv, j, xr2\); \}"), b_pb, "PM1Base::factor: jumps")
+    pb_jumps = int(m.group(1))
+    m = must(ws(r"let mut product = h \+ minus_one_r; let mut exp = (\d+); debug_assert!\(self\.larges\[0\] == (\d+)\); "
+                r"for \(idx, &p\) in self\.larges\[1\.\.pmax\]\.iter\(\)\.enumerate\(\) \{"), b_pb, "PM1Base::factor: stage-2 loop")
+    if m.group(1) != m.group(2):
+        raise ExtractError("PM1Base::factor: start exponent and asserted first large prime differ")
+    pb_first = int(m.group(1))
+    must(ws(r"let gap = \(p - exp\) as usize; h = mg_mul\(n, ninv, h, jumps\[gap / 2 - 1\]\); "
+            r"product = mg_mul\(n, ninv, product, h \+ minus_one_r\); exp = p;"), b_pb, "PM1Base::factor: gap step")
+    # h starts as xr^first: 120*4 + 22 + 1
+    must(ws(r"let xr240 = mg_mul\(n, ninv, jumps\[120 / 2 - 1\], jumps\[120 / 2 - 1\]\); let xr480 = mg_mul\(n, ninv, xr240, xr240\); "
+            r"let xr502 = mg_mul\(n, ninv, xr480, jumps\[22 / 2 - 1\]\); let mut h = mg_mul\(n, ninv, xr502, xr\);"), b_pb,
+         "PM1Base::factor: h = xr^503")
+    if pb_first != 4 * 120 + 22 + 1:
+        raise ExtractError("PM1Base::factor: first exponent is not 503")
     # --- call sites that exist only in the test-suite
     raw_pp1 = src("src/pp1.rs")
     pp1_calls = [(int_lit(a), int_lit(b), num_lit(c)) for a, b, c in
@@ -262,6 +295,10 @@ def pm1Baby : Nat × Nat := ({pm1_start}, {pm1_step})
 /-- `negsteps[i]` uses `gaps[d2 - NEG - i]`; the evaluations read are `z[p.len() - OFF ..]` with entry 0 overwritten. -/
 def pm1Neg : Nat := {pm1_neg}
 def pm1ValsOff : Nat := {pm1_off}
+
+/-- `PM1Base::factor`: (budget giving the whole stage 1, minimal budget of stage 2, offset of `pmax`, number of
+jumps, first large prime = start exponent). -/
+def pm1base : Nat × Nat × Nat × Nat × Nat := ({pb_full}, {pb_min}, {pb_off}, {pb_jumps}, {pb_first})
 
 /-- Call sites of `pp1::pp1` (test-suite only; no caller elsewhere): (seed, B1, B2). -/
 def pp1Calls : List (Nat × Nat × Nat) := [{", ".join(lrow(t) for t in pp1_calls)}]
